@@ -13,6 +13,8 @@ structure St where
   lastNew : List VPath := []
   /-- locally originated RT-membership routes of the manager (AddVrf / DeleteVrf) -/
   mgr : Mgr := Mgr.empty
+  /-- peers toward which updates are deferred -/
+  sup : List Nat := []
 
 def findPath (s : St) (uid : String) : Option VPath := s.paths.find? (·.uid == nat! uid)
 def findVrf (s : St) (id : String) : Option Vrf := (s.vrfs.find? (·.1 == nat! id)).map (·.2)
@@ -50,7 +52,7 @@ def showNats (l : List Nat) : String := if l.isEmpty then "-" else joinNats l
 
 def step (s : St) (ts : List String) : St × List String :=
   match ts with
-  | ["reset"] => ({ s with tbl := Tbl.empty, rtms := [], lastOld := [], lastNew := [], vrfs := [], mgr := Mgr.empty, paths := [] }, [])
+  | ["reset"] => ({ s with tbl := Tbl.empty, rtms := [], lastOld := [], lastNew := [], vrfs := [], mgr := Mgr.empty, paths := [], sup := [] }, [])
   | ["ec", e] =>
     let x := nat! e
     (s, [b2s (isTransitive x) ++ " " ++ (match rtKey x with | some k => toString k | none => "-")])
@@ -109,9 +111,14 @@ def step (s : St) (ts : List String) : St × List String :=
     | none => (s, ["bad-op"])
   | ["rtc", peer, rt, as, pid, wd, eor] =>
     let r := rtmOf s (nat! peer)
-    let res := rtcStep s.tbl r (b! eor) ⟨nat! rt, nat! as, nat! pid⟩ (b! wd)
+    let res := rtcStepSup s.tbl r (b! eor) ⟨nat! rt, nat! as, nat! pid⟩ (b! wd) (s.sup.contains (nat! peer))
     (setRtm s (nat! peer) res.1, [showMsgs res.2])
-  | ["chg", peer] => (s, [showMsgs (onTableChange (rtmOf s (nat! peer)) s.lastOld s.lastNew)])
+  | ["chg", peer] =>
+    if s.sup.contains (nat! peer) then (s, ["-"])
+    else (s, [showMsgs (onTableChange (rtmOf s (nat! peer)) s.lastOld s.lastNew)])
+  | ["suspend", peer] => ({ s with sup := nat! peer :: s.sup }, [])
+  | ["resume", peer] =>
+    ({ s with sup := s.sup.filter (· != nat! peer) }, [showMsgs (catchUp s.tbl (rtmOf s (nat! peer)))])
   | ["cechg", v] =>
     match findVrf s v with
     | some vr => (s, [showLMsgs (ceOnTableChange vr s.lastOld s.lastNew)])
